@@ -245,13 +245,19 @@ class PythonPrinter:
             if self._in_multi_line(entry):
                 self.stream.write(entry + "\n")
             else:
-                entry = entry.expandtabs()
+                entry = _expand_margin_tabs(entry)
                 if stripspace is None and re.search(r"^[ \t]*[^# \t]", entry):
                     stripspace = re.match(r"^([ \t]*)", entry).group(1)
                 self.stream.write(self._indent_line(entry, stripspace) + "\n")
 
         self.line_buffer = []
         self._reset_multi_line_flags()
+
+
+def _expand_margin_tabs(line):
+    """expand the tabs of the indentation of a line only."""
+    margin = re.match(r"[ \t]*", line).group(0)
+    return margin.expandtabs() + line[len(margin) :]
 
 
 def adjust_whitespace(text):
@@ -306,7 +312,7 @@ def adjust_whitespace(text):
         if in_multi_line(line):
             lines.append(line)
         else:
-            line = line.expandtabs()
+            line = _expand_margin_tabs(line)
             if stripspace is None and re.search(r"^[ \t]*[^# \t]", line):
                 stripspace = re.match(r"^([ \t]*)", line).group(1)
             lines.append(_indent_line(line, stripspace))
